@@ -14,6 +14,11 @@ def run(ctx):
     ctx.extra["explanation"] = ("Deductive (small): a major copy number below the minor one is rejected with MajorCopyNumberError and accepted otherwise. Bounded: the real loader on generated "
                                 "tables (missing / duplicated / zero-copy-number mutations, optional columns, numeric and string sample ids, tab and comma) under row permutations, with "
                                 "and without cluster files, against an independent expectation computed from the raw rows.")
+    if ctx.tier == "thorough":
+        from vcheck import lean as LN
+
+        for f_ in ("MPigeon.lean",):
+            LN.check_file(ctx, f_, "C17")
     from bounded import loader as L
 
     r = L.run(ctx.tier, ctx.seed)
